@@ -516,7 +516,10 @@ func Inputs(r *rand.Rand, g *Grammar, start string, n int, alphabet []rune) []st
 // shapes behind rule references used once (inlinable) or several times, under * + ? and inside lookahead.
 func ChoiceHeavy(r *rand.Rand) *Grammar {
 	alpha := []rune("abcdefgz")
-	switch r.Intn(6) {
+	switch r.Intn(7) {
+	case 6:
+		// letters outside ASCII (2-, 3- and 4-byte encodings whose lead bytes are themselves Latin-1 letters)
+		alpha = []rune("éèæøåßñçü日本語かな😀𝔘a")
 	case 0:
 		alpha = []rune{0, 'a', 'b', 'c', 0x10FFFF, 0x10FFFE, 'é'}
 	case 1, 2, 3:
